@@ -164,3 +164,124 @@ def args_are_params(call, params, allow_keywords=True):
         if k not in params:
             problems.append('extra keyword %s=%s' % (k, kw[k]))
     return problems
+
+
+# ------------------------------------------------------------------------------------------------------------------
+# robustness helpers: local aliases, helper following, quantifier normal form
+
+def local_aliases(func):
+    """{local: expression} for locals that are assigned exactly once and only name another value: an attribute chain, a
+    subscript of one, `len(<chain>)`, a plain name, an element of a module constant (tuple unpacking `a, b = CONST`), or
+    `<table>.setdefault(k, <fresh>)`.  Used to compare *texts* modulo hoisting / caching of sub-expressions."""
+    counts = {}
+    cand = {}
+
+    def chainlike(e):
+        if isinstance(e, ast.Name):
+            return True
+        if isinstance(e, ast.Attribute):
+            return chainlike(e.value)
+        if isinstance(e, ast.Subscript) and not isinstance(e.slice, ast.Slice):
+            return chainlike(e.value) and isinstance(e.slice, (ast.Name, ast.Constant, ast.BinOp, ast.Attribute, ast.Call))
+        if isinstance(e, ast.Call) and call_name(e) == 'len' and len(e.args) == 1 and isinstance(e.func, ast.Name):
+            return chainlike(e.args[0])
+        if isinstance(e, ast.Call) and call_name(e) == 'setdefault' and isinstance(e.func, ast.Attribute):
+            return chainlike(e.func.value)
+        if isinstance(e, ast.Call) and isinstance(e.func, ast.Attribute) and isinstance(e.func.value, ast.Name) and e.func.attr.startswith('_') \
+                and not e.func.attr.startswith('__') and not e.keywords and all(chainlike(a) for a in e.args) and len(e.args) <= 1:
+            return True      # a private accessor: self._point_at(k)
+        return False
+    for n in func.walk():
+        tgts = []
+        if isinstance(n, ast.Assign):
+            tgts = n.targets
+        elif isinstance(n, (ast.AugAssign, ast.AnnAssign)):
+            tgts = [n.target]
+        elif isinstance(n, ast.For):
+            tgts = [n.target]
+        for t in tgts:
+            for x in ast.walk(t):
+                if isinstance(x, ast.Name) and isinstance(x.ctx, ast.Store):
+                    counts[x.id] = counts.get(x.id, 0) + 1
+        if isinstance(n, ast.Assign) and len(n.targets) == 1:
+            t, v = n.targets[0], n.value
+            if isinstance(t, ast.Name) and chainlike(v):
+                if call_name(v) == 'setdefault':
+                    v = ast.Subscript(value=v.func.value, slice=v.args[0], ctx=ast.Load())
+                cand[t.id] = v
+            elif isinstance(t, ast.Tuple) and isinstance(v, ast.Name) and all(isinstance(x, ast.Name) for x in t.elts):
+                for i, x in enumerate(t.elts):
+                    cand[x.id] = ast.Subscript(value=v, slice=ast.Constant(value=i), ctx=ast.Load())
+    params = set(func.params) | set(func.kwonly)
+    return {k: v for k, v in cand.items() if counts.get(k, 0) == 1 and k not in params}
+
+
+def canon(node, aliases, depth=4):
+    """Normalised text of `node` with local aliases expanded."""
+    if node is None:
+        return ''
+    if isinstance(node, str):
+        return node
+    cur = node
+    for _ in range(depth):
+        nxt = subst(cur, aliases)
+        if norm(nxt) == norm(cur):
+            break
+        cur = nxt
+    return norm(cur)
+
+
+def private_callees(model, func, depth=1):
+    """Private helpers (leading underscore, same class or module level) that `func` calls, up to `depth` levels."""
+    out = []
+    seen = {func.qual}
+    frontier = [func]
+    for _ in range(depth):
+        nxt = []
+        for f in frontier:
+            for n in f.walk():
+                if not isinstance(n, ast.Call):
+                    continue
+                nm = call_name(n)
+                if not nm or not nm.startswith('_') or nm.startswith('__'):
+                    continue
+                q = None
+                if isinstance(n.func, ast.Attribute) and isinstance(n.func.value, ast.Name):
+                    base = n.func.value.id
+                    cls = f.cls if base in (f.self_name, '__class__', 'cls') else base if base in model.classes else None
+                    if cls:
+                        q = '%s.%s' % (cls, nm)
+                elif isinstance(n.func, ast.Name):
+                    q = nm
+                g = model.funcs.get(q) if q else None
+                if g is not None and g.qual not in seen:
+                    seen.add(g.qual)
+                    out.append(g)
+                    nxt.append(g)
+        frontier = nxt
+    return out
+
+
+def with_helpers(model, func, depth=1):
+    return [func] + private_callees(model, func, depth)
+
+
+def quantifier(node):
+    """Recognise `for x in IT: if not P(x): return False ... return True` written with all()/any():
+    returns (kind 'all'|'any', iter node, target node, predicate node, negated bool) or None.
+    `not any(Q)` == all(not Q);  `not all(Q)` == any(not Q)."""
+    neg = False
+    e = node
+    if isinstance(e, ast.UnaryOp) and isinstance(e.op, ast.Not):
+        neg = True
+        e = e.operand
+    if isinstance(e, ast.Call) and call_name(e) in ('all', 'any') and len(e.args) == 1 and isinstance(e.args[0], (ast.GeneratorExp, ast.ListComp)):
+        g = e.args[0]
+        if len(g.generators) == 1 and not g.generators[0].ifs:
+            kind = call_name(e)
+            pred = g.elt
+            if neg:
+                kind = 'all' if kind == 'any' else 'any'
+                pred = ast.UnaryOp(op=ast.Not(), operand=pred)
+            return kind, g.generators[0].iter, g.generators[0].target, pred
+    return None
